@@ -17,9 +17,28 @@ EXPL = ("Conditional Lean theorem (sbc_single_cluster): for every seed, RNG stre
         "bonding/overlap precondition. A sample where F fails but the property holds is counted, not alarmed.")
 
 
-def gen(rng, k):
+def gen(rng, k, force=None):
+    """`force` = (crystal name, hkl, layers, pbc_z): a slab of that compound / element instead of a drawn one"""
     els = F.reference_elements()
     comps = F.compounds()
+    if force is not None:
+        name = force[0]
+        hit = [m for n_, m, _ in comps if n_ == name]
+        if hit:
+            conv = hit[0]()
+        else:
+            el, st = name.split("-")
+            par = [p for n_, s_, p in els if n_ == el and s_ == st][0]
+            conv = F.conventional(el, st, par)
+        try:
+            s = F.slab(conv, force[1], force[2], pbc_z=force[3])
+        except Exception:
+            return None, {"crystal": name, "kind": "slab"}, None, "slab construction failed"
+        desc = {"crystal": name, "kind": "slab", "hkl": tuple(force[1]), "layers": force[2], "pbc_z": force[3]}
+        if len(s) > 420:
+            return None, desc, 2, "too many atoms"
+        why = F.precondition(conv, 3) or F.precondition(conv, 2, structure=s)
+        return s, desc, 2, why
     if k % 3 == 2:
         name, make, _ = comps[int(rng.integers(0, len(comps)))]
         conv = make()
@@ -62,6 +81,7 @@ def run(ctx):
     rng = np.random.default_rng(common.sample_seed(ctx) + 2)
     target = ctx.n(48, 800)
     done = k = 0
+    adaptive_records = []
     shared = SBC()          # one long-lived object: results must not depend on what it did before
     recorded = [e["repro"] for e in common.known_findings().get("known", []) if e.get("property") == "C02" and "repro" in e]
     contract_ok = contract_fail = 0
@@ -84,8 +104,10 @@ def run(ctx):
             done += 1
         ctx.count("kind_" + desc["kind"])
         try:
-            with SC.FinderRecorder() as rec:
+            with SC.FinderRecorder() as rec, SC.ProtoRecorder() as prec:
                 clusters = shared.get_clusters(a, seed=seed)
+            if len(adaptive_records) < 500:
+                adaptive_records.extend(prec.adaptive[:30])
             dims = [c.get_dimensionality() for c in clusters]
         except Exception as e:  # noqa
             bad.append({"desc": desc, "signature": "exception", "expected_dim": exp, "complaint": "exception %s: %s (SBC object re-used over the samples of this run)" % (type(e).__name__, str(e)[:150]), "atoms": crystals.atoms_to_json(a)})
@@ -120,8 +142,8 @@ def run(ctx):
         ctx.finding(key, "%s %s: %s" % (b["desc"]["crystal"], b["desc"]["kind"], b["complaint"]),
                     {"kind": "failing-input", "case": b, "how": "SBC().get_clusters(atoms, seed=seed) with default parameters"})
     import finder_helpers
-    finder_helpers.check(ctx, broken)
-    if broken and not ctx.findings:
+    finder_helpers.check(ctx, broken, adaptive_records)
+    if broken and not ctx.unknown_findings():
         ctx.finding("unproved", "conditional theorem no longer checks, no failing crystal found", {"kind": "broken-obligation", "broken": broken}, found_input=False)
     ctx.coverage["broken"] = [{"what": k_, "info": i} for k_, i in broken]
     return common.finish(ctx, "other", "members of the C02 family passing the independent precondition (distinct = distinct (crystal, kind, facet, layers, pbc, noise, seed))",
